@@ -183,9 +183,10 @@ def _busy_covers_handover(ctx):
             if not q.eval_guard(a, asg) or not q.eval_expr(a.rhs, asg):
                 continue
             val = None
+            asg2 = dict(asg, **{WR: True})     # the request itself is raised in this cycle: busy may be derived from it
             for x in bd:                       # last assignment wins
-                if q.eval_guard(x, asg):
-                    val = q.eval_expr(x.rhs, asg)
+                if q.eval_guard(x, asg2):
+                    val = q.eval_expr(x.rhs, asg2)
             if not val:
                 bad = {k: v for k, v in asg.items() if v}
                 break
